@@ -18,6 +18,11 @@ for name in names:
         print(name, 'PATCH DOES NOT APPLY'); continue
     subprocess.run(['git', '-C', '/repo', 'apply', patch], check=True)
     res = {}
+    # evidence files must come from runs on the unchanged tree: keep them aside while the mutant is checked
+    import shutil, tempfile
+    evdir = os.path.join(ROOT, 'evidence'); keep = tempfile.mkdtemp(prefix='evkeep')
+    for f in os.listdir(evdir):
+        shutil.copy(os.path.join(evdir, f), keep)
     try:
         for p in [pid] + extra:
             if not os.path.exists(os.path.join(ROOT, 'tools', 'vlib', p.lower() + '.py')):
@@ -28,5 +33,8 @@ for name in names:
             res[p] = {'exit': r.returncode, 'violation_line': viol[0] if viol else None, 'wall_s': round(time.time() - t)}
     finally:
         subprocess.run(['git', '-C', '/repo', 'checkout', '--', '.'], check=True)
+        for f in os.listdir(keep):
+            shutil.copy(os.path.join(keep, f), evdir)
+        shutil.rmtree(keep, ignore_errors=True)
     json.dump(res, open(os.path.join(d, 'result.json'), 'w'), indent=1)
     print(name, {k: (v if isinstance(v, str) else ('CAUGHT' if v['exit'] == 1 else 'MISSED exit=%d' % v['exit'])) for k, v in res.items()})
